@@ -1031,4 +1031,472 @@ theorem runOps_independent (Q : Path) (t : Tx) (ops : List Op) (h : Outside Q t 
     rw [runOps_cons]
     exact (step_independent t op Q h.1).trans (ih _ h.2)
 
+/-! ### cursors -/
+
+/-- a live cursor `i` over bucket `P` in an open transaction. -/
+structure LiveCursor (t : Tx) (i : Nat) (P : Path) (pos : Option Nat) : Prop where
+  opn : t.closed = false
+  cur : ∃ c, t.cursors.lookup i = some c ∧ c.path = P ∧ c.dead = false ∧ c.pos = pos
+
+theorem lookup_setCursor (t : Tx) (i : Nat) (c : Cursor) : (t.setCursor i c).cursors.lookup i = some c := by
+  simp [Tx.setCursor]
+
+theorem curMove_live {t : Tx} {i : Nat} {P : Path} {pos : Option Nat} (h : LiveCursor t i P pos)
+    (needPos : Bool) (hpos : needPos = true → pos.isSome = true)
+    (f : List (Bytes × Option Bytes) → Nat → Nat × Bool) :
+    let L := view t.work P
+    let r := f L (pos.getD 0)
+    (t.curMove i needPos f).2 = .entry (if r.2 then L[r.1]? else none) ∧
+    LiveCursor (t.curMove i needPos f).1 i P (some r.1) ∧
+    (t.curMove i needPos f).1.work = t.work := by
+  obtain ⟨c, hc, rfl, hd, rfl⟩ := h.cur
+  have hstale : (c.dead || (needPos && c.pos.isNone)) = false := by
+    rw [hd]
+    cases needPos with
+    | false => rfl
+    | true =>
+      have := hpos rfl
+      cases hp : c.pos with
+      | none => rw [hp] at this; cases this
+      | some _ => rfl
+  unfold Tx.curMove
+  simp only [hc, h.opn, hstale]
+  refine ⟨rfl, ⟨h.opn, ⟨_, lookup_setCursor _ _ _, rfl, hd, rfl⟩⟩, rfl⟩
+
+theorem step_next_live {t : Tx} {i : Nat} {P : Path} {j : Nat} (h : LiveCursor t i P (some j)) :
+    (step t (.curNext i)).2 = .entry (if j + 1 < (view t.work P).length then (view t.work P)[j + 1]? else none) ∧
+    LiveCursor (step t (.curNext i)).1 i P (some (if j + 1 < (view t.work P).length then j + 1 else j)) ∧
+    (step t (.curNext i)).1.work = t.work := by
+  have hm := curMove_live h true (fun _ => rfl)
+    (fun l pos => if pos + 1 < l.length then (pos + 1, true) else (pos, false))
+  simp only [Option.getD_some] at hm
+  obtain ⟨hr, hl, hw⟩ := hm
+  refine ⟨?_, ?_, hw⟩
+  · show (t.curMove i true _).2 = _
+    rw [hr]; split <;> simp
+  · show LiveCursor (t.curMove i true _).1 i P _
+    split at hl <;> (split <;> first | exact hl | omega)
+
+theorem step_prev_live {t : Tx} {i : Nat} {P : Path} {j : Nat} (h : LiveCursor t i P (some j)) :
+    (step t (.curPrev i)).2 = .entry (if 0 < j then (view t.work P)[j - 1]? else none) ∧
+    LiveCursor (step t (.curPrev i)).1 i P (some (j - 1)) ∧
+    (step t (.curPrev i)).1.work = t.work := by
+  have hm := curMove_live h true (fun _ => rfl)
+    (fun _ pos => if 0 < pos then (pos - 1, true) else (0, false))
+  simp only [Option.getD_some] at hm
+  obtain ⟨hr, hl, hw⟩ := hm
+  refine ⟨?_, ?_, hw⟩
+  · show (t.curMove i true _).2 = _
+    rw [hr]; split <;> simp
+  · show LiveCursor (t.curMove i true _).1 i P _
+    split at hl
+    · exact hl
+    · have : j - 1 = 0 := by omega
+      rw [this]; exact hl
+
+theorem step_first_live {t : Tx} {i : Nat} {P : Path} {pos : Option Nat} (h : LiveCursor t i P pos) :
+    (step t (.curFirst i)).2 = .entry (view t.work P)[0]? ∧
+    LiveCursor (step t (.curFirst i)).1 i P (some 0) ∧ (step t (.curFirst i)).1.work = t.work :=
+  curMove_live h false (fun e => by cases e) (fun _ _ => (0, true))
+
+theorem step_last_live {t : Tx} {i : Nat} {P : Path} {pos : Option Nat} (h : LiveCursor t i P pos) :
+    (step t (.curLast i)).2 = .entry (view t.work P)[(view t.work P).length - 1]? ∧
+    LiveCursor (step t (.curLast i)).1 i P (some ((view t.work P).length - 1)) ∧
+    (step t (.curLast i)).1.work = t.work :=
+  curMove_live h false (fun e => by cases e) (fun l _ => (l.length - 1, true))
+
+theorem step_seek_live {t : Tx} {i : Nat} {P : Path} {pos : Option Nat} (h : LiveCursor t i P pos) (k : Bytes) :
+    (step t (.curSeek i k)).2 = .entry (view t.work P)[seekPos (view t.work P) k]? ∧
+    LiveCursor (step t (.curSeek i k)).1 i P (some (seekPos (view t.work P) k)) ∧
+    (step t (.curSeek i k)).1.work = t.work :=
+  curMove_live h false (fun e => by cases e) (fun l _ => (seekPos l k, true))
+
+/-- `m` times `Next` from position `min a (n-1)`: the `r`-th answer is entry `a+1+r` of the view, nil past the end. -/
+theorem next_iter (m : Nat) : ∀ (t : Tx) (i : Nat) (P : Path) (a : Nat),
+    LiveCursor t i P (some (min a ((view t.work P).length - 1))) →
+    (runOps t (List.replicate m (.curNext i))).2 =
+      (List.range m).map (fun r => Reply.entry (view t.work P)[a + 1 + r]?) := by
+  induction m with
+  | zero => intro t i P a _; rfl
+  | succ m ih =>
+    intro t i P a h
+    obtain ⟨hr, hl, hw⟩ := step_next_live h
+    rw [List.replicate_succ, runOps_cons, List.range_succ_eq_map, List.map_cons, List.map_map, hr]
+    generalize hn : (view t.work P).length = n at *
+    have hl' : LiveCursor (step t (.curNext i)).1 i P
+        (some (min (a + 1) ((view (step t (.curNext i)).1.work P).length - 1))) := by
+      rw [hw, hn]
+      have e : (if min a (n - 1) + 1 < n then min a (n - 1) + 1 else min a (n - 1)) = min (a + 1) (n - 1) := by
+        split <;> omega
+      rw [← e]; exact hl
+    rw [ih _ i P (a + 1) hl', hw]
+    dsimp only
+    congr 1
+    · congr 1
+      split
+      · rename_i hlt
+        have : min a (n - 1) = a := by omega
+        rw [this]
+      · rename_i hlt
+        rw [List.getElem?_eq_none (by omega)]
+    · apply List.map_congr_left
+      intro r _
+      simp only [Function.comp]
+      congr 2
+      omega
+
+/-- `m` times `Prev` from position `j`: the `r`-th answer is entry `j-1-r`, nil once the beginning was reached. -/
+theorem prev_iter (m : Nat) : ∀ (t : Tx) (i : Nat) (P : Path) (j : Nat),
+    LiveCursor t i P (some j) →
+    (runOps t (List.replicate m (.curPrev i))).2 =
+      (List.range m).map (fun r => Reply.entry (if r < j then (view t.work P)[j - 1 - r]? else none)) := by
+  induction m with
+  | zero => intro t i P j _; rfl
+  | succ m ih =>
+    intro t i P j h
+    obtain ⟨hr, hl, hw⟩ := step_prev_live h
+    rw [List.replicate_succ, runOps_cons, List.range_succ_eq_map, List.map_cons, List.map_map, hr,
+      ih _ i P (j - 1) hl, hw]
+    dsimp only
+    congr 1
+    apply List.map_congr_left
+    intro r _
+    simp only [Function.comp]
+    by_cases h1 : r < j - 1
+    · have h2 : r + 1 < j := by omega
+      have e : j - 1 - 1 - r = j - 1 - (r + 1) := by omega
+      simp [h1, h2, e]
+    · have h2 : ¬ r + 1 < j := by omega
+      simp [h1, h2]
+
+/-- `Seek k` lands on the least key `≥ k` (byte order), or past the end when every key is smaller. -/
+theorem seekPos_spec (L : List (Bytes × Option Bytes)) (k : Bytes)
+    (hs : L.Pairwise (fun a b => compare a.1 b.1 = .lt)) :
+    match L[seekPos L k]? with
+    | some e => compare e.1 k ≠ .lt ∧ e ∈ L ∧ ∀ e' ∈ L, compare e'.1 k ≠ .lt → e' = e ∨ compare e.1 e'.1 = .lt
+    | none => ∀ e' ∈ L, compare e'.1 k = .lt := by
+  induction L with
+  | nil => simp [seekPos]
+  | cons e rest ih =>
+    have ⟨hhead, hrest⟩ := List.pairwise_cons.mp hs
+    by_cases hlt : compare e.1 k = .lt
+    · have hsp : seekPos (e :: rest) k = seekPos rest k + 1 := by simp [seekPos, hlt]
+      rw [hsp, List.getElem?_cons_succ]
+      have := ih hrest
+      split at this
+      · rename_i e0 he0
+        refine ⟨this.1, List.mem_cons_of_mem _ this.2.1, ?_⟩
+        intro e' he' hge
+        rcases List.mem_cons.mp he' with rfl | he'
+        · exact absurd hlt hge
+        · exact this.2.2 e' he' hge
+      · rename_i hnone
+        intro e' he'
+        rcases List.mem_cons.mp he' with rfl | he'
+        · exact hlt
+        · exact this e' he'
+    · have hsp : seekPos (e :: rest) k = 0 := by simp [seekPos, hlt]
+      rw [hsp]
+      simp only [List.getElem?_cons_zero]
+      refine ⟨hlt, List.mem_cons_self, ?_⟩
+      intro e' he' _
+      rcases List.mem_cons.mp he' with rfl | he'
+      · exact .inl rfl
+      · exact .inr (hhead e' he')
+
+/-! ### well-formedness (a usable store) -/
+
+/-- A usable store: nothing is stored at the root path, every entry lives in an existing bucket, keys are non-empty
+(what bbolt guarantees of its own trees). -/
+structure WF (d : DB) : Prop where
+  root : d[([] : Path)]? = none
+  parent : ∀ (p : Path) (k : Bytes) (e : Entry), d[p ++ [k]]? = some e → isBucket d p = true
+  key : ∀ (p : Path) (k : Bytes) (e : Entry), d[p ++ [k]]? = some e → k ≠ []
+
+theorem WF.empty : WF ({} : DB) := ⟨by simp, by intro p k e h; simp at h, by intro p k e h; simp at h⟩
+
+theorem isBucket_of_get {d d' : DB} {p : Path} (h : d'[p]? = d[p]?) : isBucket d' p = isBucket d p := by
+  cases p with
+  | nil => rfl
+  | cons a p => simp only [isBucket, h]
+
+theorem isBucket_cons {d : DB} {q : Path} (hq : q ≠ []) (h : isBucket d q = true) :
+    ∃ s, d[q]? = some (.bucket s) := by
+  cases q with
+  | nil => exact absurd rfl hq
+  | cons a r =>
+    simp only [isBucket] at h
+    split at h
+    · rename_i s hs; exact ⟨s, hs⟩
+    · cases h
+
+theorem isBucket_of_entry {d : DB} {q : Path} {s : Nat} (h : d[q]? = some (.bucket s)) : isBucket d q = true := by
+  cases q with
+  | nil => rfl
+  | cons a r => simp only [isBucket, h]
+
+/-- writing a value into an existing bucket at a key that is not a bucket. -/
+theorem WF.insert_val {d : DB} (w : WF d) {p : Path} {k v : Bytes} (hb : isBucket d p = true) (hk : k ≠ [])
+    (hnb : ∀ s, d[p ++ [k]]? ≠ some (.bucket s)) : WF (d.insert (p ++ [k]) (.val v)) := by
+  refine ⟨?_, ?_, ?_⟩
+  · rw [get_insert, if_neg (append_singleton_ne_nil _ _)]; exact w.root
+  · intro p' k' e' h
+    rw [get_insert] at h
+    have hp' : isBucket d p' = true := by
+      split at h
+      · rename_i e; rw [← (append_singleton_inj.mp e).1]; exact hb
+      · exact w.parent _ _ _ h
+    rw [← hp']
+    apply isBucket_of_get
+    rw [get_insert]
+    split
+    · rename_i e
+      subst e
+      obtain ⟨s, hs⟩ := isBucket_cons (append_singleton_ne_nil _ _) hp'
+      exact absurd hs (hnb s)
+    · rfl
+  · intro p' k' e' h
+    rw [get_insert] at h
+    split at h
+    · rename_i e; rw [← (append_singleton_inj.mp e).2]; exact hk
+    · exact w.key _ _ _ h
+
+/-- writing a bucket header where there is no value (new bucket, or a new sequence number for an existing one). -/
+theorem WF.insert_bucket {d : DB} (w : WF d) {p : Path} {n : Bytes} {s : Nat} (hb : isBucket d p = true)
+    (hn : n ≠ []) : WF (d.insert (p ++ [n]) (.bucket s)) := by
+  refine ⟨?_, ?_, ?_⟩
+  · rw [get_insert, if_neg (append_singleton_ne_nil _ _)]; exact w.root
+  · intro p' k' e' h
+    rw [get_insert] at h
+    have hp' : isBucket d p' = true := by
+      split at h
+      · rename_i e; rw [← (append_singleton_inj.mp e).1]; exact hb
+      · exact w.parent _ _ _ h
+    by_cases hp'' : p' = []
+    · subst hp''; rfl
+    · obtain ⟨s', hs'⟩ := isBucket_cons hp'' hp'
+      by_cases e : p ++ [n] = p'
+      · exact isBucket_of_entry (s := s) (by rw [get_insert, if_pos e])
+      · exact isBucket_of_entry (s := s') (by rw [get_insert, if_neg e]; exact hs')
+  · intro p' k' e' h
+    rw [get_insert] at h
+    split at h
+    · rename_i e; rw [← (append_singleton_inj.mp e).2]; exact hn
+    · exact w.key _ _ _ h
+
+/-- removing a value. -/
+theorem WF.erase_val {d : DB} (w : WF d) {a : Path} (hnb : ∀ s, d[a]? ≠ some (.bucket s)) : WF (d.erase a) := by
+  refine ⟨?_, ?_, ?_⟩
+  · rw [get_erase]; split
+    · rfl
+    · exact w.root
+  · intro p' k' e' h
+    rw [get_erase] at h
+    split at h
+    · cases h
+    · have hp' := w.parent _ _ _ h
+      rw [← hp']
+      apply isBucket_of_get
+      rw [get_erase]
+      split
+      · rename_i _ e
+        subst e
+        by_cases ha : a = []
+        · subst ha; exact w.root.symm
+        · obtain ⟨s, hs⟩ := isBucket_cons ha hp'
+          exact absurd hs (hnb s)
+      · rfl
+  · intro p' k' e' h
+    rw [get_erase] at h
+    split at h
+    · cases h
+    · exact w.key _ _ _ h
+
+/-- removing a whole subtree. -/
+theorem WF.delete_subtree {d : DB} (w : WF d) (a : Path) :
+    WF (d.filter (fun q _ => !a.isPrefixOf q)) := by
+  refine ⟨?_, ?_, ?_⟩
+  · rw [get_deleteBucket]; split
+    · rfl
+    · exact w.root
+  · intro p' k' e' h
+    rw [get_deleteBucket] at h
+    split at h
+    · cases h
+    · rename_i hnp
+      have hp' := w.parent _ _ _ h
+      rw [← hp']
+      apply isBucket_of_get
+      rw [get_deleteBucket, if_neg]
+      intro hpre
+      exact hnp (hpre.trans (List.prefix_append _ _))
+  · intro p' k' e' h
+    rw [get_deleteBucket] at h
+    split at h
+    · cases h
+    · exact w.key _ _ _ h
+
+theorem step_work_of_no_footprint (t : Tx) (op : Op) (h : ∀ q, ¬ footprint t op q) :
+    (step t op).1.work = t.work :=
+  ExtTreeMap.ext_getElem? (fun q => step_frame t op q (h q))
+
+theorem path_concat_of_ne_nil {p : Path} (h : p ≠ []) : ∃ p0 n0, p = p0 ++ [n0] := by
+  rcases List.eq_nil_or_concat p with h' | ⟨p0, n0, h'⟩
+  · exact absurd h' h
+  · exact ⟨p0, n0, by rw [h', List.concat_eq_append]⟩
+
+theorem WF.set_seq {d : DB} (w : WF d) {p : Path} (hp : p ≠ []) (hb : isBucket d p = true) (s : Nat) :
+    WF (d.insert p (.bucket s)) := by
+  obtain ⟨p0, n0, rfl⟩ := path_concat_of_ne_nil hp
+  obtain ⟨s0, hs0⟩ := isBucket_cons hp hb
+  exact w.insert_bucket (w.parent _ _ _ hs0) (w.key _ _ _ hs0)
+
+/-- every call keeps the working state usable. -/
+theorem step_wf (t : Tx) (op : Op) (w : WF t.work) (hapi : op.apiOk = true) : WF (step t op).1.work := by
+  cases op with
+  | put p k v =>
+    simp only [step]
+    split
+    · simpa using w
+    · rename_i hg
+      have g := guardW_none hg
+      rw [applyW_work]
+      split
+      · rename_i d hd
+        obtain ⟨rfl, hk, hnb⟩ := put_ok hd
+        exact WF.insert_val (by simpa using w) g.2.1 hk hnb
+      · simpa using w
+  | delete p k =>
+    simp only [step]
+    split
+    · simpa using w
+    · rw [applyW_work]
+      split
+      · rename_i d hd
+        obtain ⟨rfl, hnb⟩ := delete_ok hd
+        exact WF.erase_val (by simpa using w) hnb
+      · simpa using w
+  | createBucket p n =>
+    simp only [step]
+    split
+    · simpa using w
+    · rename_i hg
+      have g := guardW_none hg
+      rw [applyW_work]
+      split
+      · rename_i d hd
+        obtain ⟨rfl, hn, _⟩ := createBucket_ok hd
+        exact WF.insert_bucket (by simpa using w) g.2.1 hn
+      · simpa using w
+  | createBucketIfNotExists p n =>
+    simp only [step]
+    split
+    · simpa using w
+    · rename_i hg
+      have g := guardW_none hg
+      rw [applyW_work]
+      split
+      · rename_i d hd
+        rcases createBucketIfNotExists_ok hd with ⟨rfl, _⟩ | ⟨rfl, hn, _⟩
+        · simpa using w
+        · exact WF.insert_bucket (by simpa using w) g.2.1 hn
+      · simpa using w
+  | deleteBucket p n =>
+    simp only [step]
+    split
+    · simpa using w
+    · split
+      · rename_i d hd
+        obtain ⟨rfl, _⟩ := deleteBucket_ok hd
+        exact WF.delete_subtree (by simpa using w) _
+      · simpa using w
+  | setSequence p n =>
+    have hp : p ≠ [] := by intro e; subst e; simp [Op.apiOk] at hapi
+    simp only [step]
+    split
+    · simpa using w
+    · rename_i hg
+      exact WF.set_seq (by simpa using w) hp (guardW_none hg).2.1 _
+  | nextSequence p =>
+    have hp : p ≠ [] := by intro e; subst e; simp [Op.apiOk] at hapi
+    simp only [step]
+    split
+    · simpa using w
+    · rename_i hg
+      exact WF.set_seq (by simpa using w) hp (guardW_none hg).2.1 _
+  | curDelete i =>
+    simp only [step]
+    split
+    · exact w
+    · rename_i c hc
+      split
+      · exact w
+      · split
+        · exact w
+        · split
+          · exact w
+          · exact w
+          · split
+            · exact w
+            · exact w
+            · rename_i pos _ k v hv
+              refine WF.erase_val w ?_
+              intro s hs
+              have hmem : (k, some v) ∈ view t.work c.path := List.mem_of_getElem? hv
+              obtain ⟨e, he, hsh⟩ := mem_view.mp hmem
+              rw [hs] at he
+              cases he
+              cases hsh
+  | get p k => rw [step_work_of_no_footprint _ _ (fun q => by simp [footprint])]; exact w
+  | sequence p => rw [step_work_of_no_footprint _ _ (fun q => by simp [footprint])]; exact w
+  | lookup p n => rw [step_work_of_no_footprint _ _ (fun q => by simp [footprint])]; exact w
+  | forEach p l => rw [step_work_of_no_footprint _ _ (fun q => by simp [footprint])]; exact w
+  | curOpen i p => rw [step_work_of_no_footprint _ _ (fun q => by simp [footprint])]; exact w
+  | curFirst i => rw [step_work_of_no_footprint _ _ (fun q => by simp [footprint])]; exact w
+  | curLast i => rw [step_work_of_no_footprint _ _ (fun q => by simp [footprint])]; exact w
+  | curNext i => rw [step_work_of_no_footprint _ _ (fun q => by simp [footprint])]; exact w
+  | curPrev i => rw [step_work_of_no_footprint _ _ (fun q => by simp [footprint])]; exact w
+  | curSeek i k => rw [step_work_of_no_footprint _ _ (fun q => by simp [footprint])]; exact w
+  | commit => rw [step_work_of_no_footprint _ _ (fun q => by simp [footprint])]; exact w
+  | rollback => rw [step_work_of_no_footprint _ _ (fun q => by simp [footprint])]; exact w
+  | onCommit => rw [step_work_of_no_footprint _ _ (fun q => by simp [footprint])]; exact w
+
+theorem step_wf_db (t : Tx) (op : Op) (wd : WF t.db) (w : WF t.work) : WF (step t op).1.db := by
+  rcases (step_core t op).db with h | ⟨_, _, _, _, h⟩
+  · rw [h]; exact wd
+  · rw [h]; exact w
+
+theorem runOps_wf (t : Tx) (ops : List Op) (wd : WF t.db) (w : WF t.work) (hapi : ∀ op ∈ ops, op.apiOk = true) :
+    WF (runOps t ops).1.db ∧ WF (runOps t ops).1.work := by
+  induction ops generalizing t with
+  | nil => exact ⟨wd, w⟩
+  | cons op rest ih =>
+    rw [runOps_cons]
+    exact ih _ (step_wf_db t op wd w) (step_wf t op w (hapi op List.mem_cons_self))
+      (fun o ho => hapi o (List.mem_cons_of_mem _ ho))
+
+/-! ### histories -/
+
+theorem runHistory_nil (db : DB) : runHistory db [] = (db, []) := rfl
+
+theorem runHistory_cons (db : DB) (x : Txn) (rest : List Txn) :
+    runHistory db (x :: rest) =
+      ((runHistory (runTxn db x).1 rest).1, (runTxn db x).2 :: (runHistory (runTxn db x).1 rest).2) := rfl
+
+theorem runHistory_append (db : DB) (a b : List Txn) :
+    runHistory db (a ++ b) =
+      ((runHistory (runHistory db a).1 b).1, (runHistory db a).2 ++ (runHistory (runHistory db a).1 b).2) := by
+  induction a generalizing db with
+  | nil => rfl
+  | cons x rest ih => simp only [List.cons_append, runHistory_cons, ih]
+
+/-- A transaction that cannot have committed anything: read-only kinds; a `Batch` that failed; an `Update` that
+failed and never called `Commit` on the handle; a hand-made read-write transaction dropped without `Commit`. -/
+def Txn.inert (x : Txn) : Bool :=
+  match x.kind with
+  | .view | .manualRO => true
+  | .batch => x.outcome != .ok
+  | .update => x.outcome != .ok && !x.prog.contains .commit
+  | .manualRW => !x.prog.contains .commit
+
 end KV
